@@ -581,6 +581,27 @@ pub fn boundary_values(file_len: usize, size: usize) -> Vec<u64> {
     v
 }
 
+/// Relational boundary values: the values the OTHER fields of the image hold, and their
+/// neighbours (off-by-one comparisons between two fields only show at `a == b`).
+pub fn relational_values(img: &[u8], fields: &[Field], size: usize) -> Vec<u64> {
+    let mask = if size >= 8 { u64::MAX } else { (1u64 << (8 * size)) - 1 };
+    let mut v = Vec::new();
+    for f in fields {
+        let mut x = 0u64;
+        for i in 0..f.size.min(8) {
+            if let Some(b) = img.get(f.off + i) {
+                x |= (*b as u64) << (8 * i);
+            }
+        }
+        for y in [x, x.wrapping_add(1), x.wrapping_sub(1)] {
+            v.push(y & mask);
+        }
+    }
+    v.sort();
+    v.dedup();
+    v
+}
+
 pub fn set_field(img: &mut [u8], f: &Field, v: u64) {
     for i in 0..f.size {
         if f.off + i < img.len() {
